@@ -269,6 +269,15 @@ class Base(unittest.TestCase):
             def put_back():
                 sys.stdout, sys.stderr = saved
             self.addCleanup(put_back)
+        if self.spec.get("ownstream"):
+            # a test that captures its own sys.stdout for its whole duration and puts back what it found
+            import io as _io
+            found = sys.stdout
+            sys.stdout = _io.StringIO()
+
+            def put_found_back():
+                sys.stdout = found
+            self.addCleanup(put_found_back)
         for k, c in reversed(list(enumerate(self.spec["cleanups"]))):
             self.addCleanup(do_part, self, ["cleanup", k], c)
         do_part(self, ["setUp"], self.spec["setUp"])
